@@ -115,9 +115,15 @@ func (p *VarHeaderPostprocessor) substr(args []string) (func(in string) string, 
 		if start > end {
 			start, end = end, start
 		}
-		// Header value can be shorter than expected in config.
+		// Header value can be shorter than expected in config: keep both bounds inside the value.
 		if start < 0 {
 			start = 0
+		}
+		if start > l {
+			start = l
+		}
+		if end < 0 {
+			end = 0
 		}
 		if end > l {
 			end = l
